@@ -449,7 +449,9 @@ def gen_emdeep(rng, tier):
             "mode": "init", "seed": 0, "init": init, "batch_size": rng.choice([None, 5]), "atol": 0,
             "show_progress": False, "lc_default": False, "probe0": False, "index": rng.choice(INDEX_MODES),
             "backend": "numpy", "em_n_jobs": 1, "objsession": False, "mseed": rng.randint(0, 10**9), "deep": True,
-            "model_iters": 1 if tier == "quick" else 2}
+            # the model's exact E/M-step for iteration 1 only: from iteration 2 on the exact rationals of 20
+            # rounded factors per row cost minutes; iterations 2, 3 are covered by the exact likelihood assertion
+            "model_iters": 1}
     rng.shuffle(case["edges"])
     rng.shuffle(case["colorder"])
     # every universe state must be seen or declared so that the init tables have the right shape
